@@ -229,3 +229,45 @@ func VerifHarness_C08_idx_encode() {
 	c, _ := idx.Count()
 	verifrt.Assert(c == int64(n), "c08-idx-count-is-number-of-pack-entries")
 }
+
+// idx-encode-many: more rows than any library sort's small-slice threshold
+// (sort.Stable / slices.SortFunc switch algorithm at 12 elements), with
+// CONCRETE names that repeat (duplicate objects, as `git pack-objects` can be
+// made to emit and as thin-pack completion produces) and symbolic offsets
+// (below git's off32 limit, so that no row forks on the 64-bit table) and
+// CRCs: duplicate names must keep their pack order, as with git's stable
+// merge sort. Added after seed C08-1 (which needs > 12 entries).
+func VerifHarness_C08_idx_encode_many() {
+	hs := verifrt.Param("HS")
+	n := verifrt.Range(verifrt.Param("NMIN"), verifrt.Param("N"))
+	distinct := verifrt.Param("DISTINCT")
+	stride := []int{3, 5, 7}[verifrt.Range(0, 2)]
+	rows := make([]VerifC08Row, n)
+	for i := range rows {
+		name := make([]byte, hs)
+		k := (i * stride) % distinct
+		name[0] = verifC08FirstBytes[k%len(verifC08FirstBytes)]
+		name[hs-1] = byte(1 + k)
+		off := verifrt.NondetUint64()
+		verifrt.Assume(off <= VerifC08Off32Limit)
+		rows[i] = VerifC08Row{Name: name, Off: off, CRC: verifrt.NondetUint32()}
+	}
+	packSum := verifrt.NondetBytes(hs)
+
+	w := new(Writer)
+	err := VerifC08Feed(w, rows, packSum)
+	verifrt.Assert(err == nil, "c08-idx-writer-no-error")
+	idx, err := w.Index()
+	verifrt.Assert(err == nil && idx != nil, "c08-idx-index-built")
+	h := verifrt.NewRecHash(hs)
+	var buf bytes.Buffer
+	err = Encode(&buf, h, idx)
+	verifrt.Assert(err == nil, "c08-idx-encode-no-error")
+	want := VerifC08RefIdx(rows, packSum, func(b []byte) []byte { return verifrt.HashUF(b, hs) })
+	got := buf.Bytes()
+	verifrt.Reach("c08-idx-many-compared")
+	verifrt.Assert(len(got) == len(want), "c08-idx-length-is-gits")
+	if len(got) == len(want) {
+		verifrt.Assert(verifrt.BytesEq(got, want), "c08-idx-bytes-are-gits")
+	}
+}
